@@ -5,6 +5,7 @@ import json
 
 from pydiffx.errors import (DiffXContentError,
                             DiffXOptionValueChoiceError,
+                            DiffXOptionValueError,
                             DiffXSectionOrderError)
 from pydiffx.options import (DiffType,
                              LineEndings,
@@ -619,6 +620,12 @@ class DiffXWriter(object):
                 option='line_endings',
                 value=line_endings,
                 choices=LineEndings.VALID_VALUES)
+
+        if (indent is not None and
+            (isinstance(indent, bool) or not isinstance(indent, int) or
+             indent < 0)):
+            raise DiffXOptionValueError(
+                'indent must be a non-negative integer, not %r' % (indent,))
 
         assert isinstance(content, (bytes, str))
 
